@@ -68,8 +68,16 @@ def site_lists(facts):
     return const, rel, dyn, calls
 
 
+def nil_lists(facts):
+    """fact F3, second part: (guarded, unguarded) non-`,ok` assertions and dereferences of possibly-nil lookup results — no line numbers"""
+    ns = facts.get("nil_sites") or []
+    row = lambda n: (n["file"], n["func"], n["kind"] + " " + n["text"] + ((" <- " + n["from"]) if n.get("from") else ""))
+    return sorted(row(n) for n in ns if n["class"] == "guarded"), sorted(row(n) for n in ns if n["class"] != "guarded")
+
+
 def write_sites(facts):
     const, rel, dyn, calls = site_lists(facts)
+    nil_g, nil_u = nil_lists(facts)
     q5 = lambda r: "(%s, %s, %d, %d, %d)" % (_lstr(r[0]), _lstr(r[1]), r[2], r[3], r[4])
     src = ("/-! GENERATED on every check run from /repo's source by the harness `facts` engine (harness/sites.go) — do not edit.\n"
            "Fact F3: the panic-capable expressions of memdb, server, resp, util, raftexample with what the dominating guards guarantee. -/\n"
@@ -86,7 +94,14 @@ def write_sites(facts):
            _llist(["(%s, %s, %d, %d)" % (_lstr(r[0]), _lstr(r[1]), r[2], r[3]) for r in calls]) + "\n\n"
            "/-- sites for which no bound could be established: (file, function, kind and normalised source text) — no line numbers -/\n"
            "def dynamicSites : List (String × String × String) := " +
-           _llist(["(%s, %s, %s)" % (_lstr(r[0]), _lstr(r[1]), _lstr(r[2])) for r in dyn]) + "\n\nend Generated\n")
+           _llist(["(%s, %s, %s)" % (_lstr(r[0]), _lstr(r[1]), _lstr(r[2])) for r in dyn]) + "\n\n"
+           "/-- type assertions without `, ok` and dereferences (`p.f`, `*p`, `p.m()`) of a local assigned from a call of a function that can return\n"
+           "    nil, where the value is known present on every path (its `ok` flag was tested true, or `p != nil`): (file, function, kind text <- callee) -/\n"
+           "def nilGuardedSites : List (String × String × String) := " +
+           _llist(["(%s, %s, %s)" % (_lstr(r[0]), _lstr(r[1]), _lstr(r[2])) for r in nil_g]) + "\n\n"
+           "/-- … and those with no such guard -/\n"
+           "def nilUnguardedSites : List (String × String × String) := " +
+           _llist(["(%s, %s, %s)" % (_lstr(r[0]), _lstr(r[1]), _lstr(r[2])) for r in nil_u]) + "\n\nend Generated\n")
     old = open(GEN_SITES).read() if os.path.exists(GEN_SITES) else None
     if old != src:
         os.makedirs(os.path.dirname(GEN_SITES), exist_ok=True)
@@ -123,6 +138,16 @@ def check_sites(facts):
             broken["calls"].append(c)
             msgs.append("%s %s line %d: `%s` may pass a command shorter than %d word(s) to an executor (Sites.executor_entry_safe)" % (
                 c["file"], c["func"], c["line"], c["text"], emin))
+    expn = _expected_list(SITES_PROP, "expectedNilUnguarded")
+    if expn is not None:
+        have, want = collections.Counter(nil_lists(facts)[1]), collections.Counter(expn)
+        for row, n in sorted((have - want).items()):
+            broken["new_dynamic"].append(dict(file=row[0], func=row[1], text=row[2], lines=[]))
+            msgs.append("%s %s: `%s` asserts / dereferences a value that may be absent or nil with no `, ok` / `!= nil` test on every path before it, and is not "
+                        "in the reviewed inventory (Sites.nil_unguarded_inventory)" % row)
+        for row, n in sorted((want - have).items()):
+            broken["gone_dynamic"].append(dict(file=row[0], func=row[1], text=row[2]))
+            msgs.append("%s %s: reviewed site `%s` is no longer unguarded in the source (Sites.nil_unguarded_inventory; remove it from expectedNilUnguarded)" % row)
     exp = expected_dynamic()
     if exp is not None:
         have = collections.Counter(site_lists(facts)[2])
@@ -257,8 +282,9 @@ def regenerate(R):
         good, msgs, broken = check_sites(facts)
         const, rel, dyn, calls = site_lists(facts)
         R.oblige("fact F3: %d constant-bound + %d variable-offset index/slice/division sites lie within the length their dominating guards guarantee, "
-                 "%d executor calls pass a non-empty command, %d unguarded sites equal the reviewed inventory (regenerated into Generated/Sites.lean; "
-                 "closed in Lean by Props/C04Sites)" % (len(const), len(rel), len(calls), len(dyn)), "facts", good, "; ".join(msgs)[:900])
+                 "%d executor calls pass a non-empty command, %d unguarded sites equal the reviewed inventory; of the non-`,ok` assertions / dereferences of "
+                 "possibly-nil lookup results %d are guarded by a presence / nil test, the %d others equal a reviewed list (regenerated into Generated/Sites.lean; "
+                 "closed in Lean by Props/C04Sites)" % ((len(const), len(rel), len(calls), len(dyn)) + tuple(len(x) for x in nil_lists(facts))), "facts", good, "; ".join(msgs)[:900])
         R.extra["sites"] = dict(const=len(const), rel=len(rel), dynamic=len(dyn), executor_calls=len(calls),
                                 by_kind=dict(collections.Counter(s["kind"] + "/" + s["class"] for s in facts.get("sites") or [])))
         if not good:
